@@ -259,6 +259,12 @@ def run_C02(ctx):
 def run_C19(ctx):
     V.build()
     q = ctx.quick()
+    # design level: independent / sequential decomposition and equivalence breaking are refuted by the same assignments (Decompose.tla)
+    _, mc = V.run_tlc(ctx, "Decompose", "Decompose.cfg", {}, workers=2, timeout=600, xss="64m")
+    import re as _re
+    mm = _re.search(r"(\d+) states generated, (\d+) distinct states found", mc)
+    if not mm:
+        raise V.ToolError("design check Decompose.tla failed")
     # every flag combination for every task (the quick tiers of C02/C03 use subsets)
     orig_quick = ctx.tier
     s_cases, s_usable, s_skipped, s_panics = strong_records(ctx, 45, 1200)
@@ -286,7 +292,7 @@ def run_C19(ctx):
         violations.append({"check": "C19.panic", "text": p["text"], "detail": f"anthem panicked under {p['flags']}: {p['panic']}", "record": p})
     nfam = sum(len([f for f in r["families"] if "problems" in f]) for r in usable)
     coverage = {
-        "programs": len(usable), "families_compared": nfam, "disagreements_checked": stats["verdicts"] - stats["skip"],
+        "programs": len(usable), "families_compared": nfam, "design_check_states": int(mm.group(2)), "disagreements_checked": stats["verdicts"] - stats["skip"],
         "evaluations": stats["evaluations"], "unknown_evaluations": stats["unknown"], "distinct_nontrivial": len(stats["nontrivial_ids"]),
         "vacuous_or_constant": stats["vacuous"], "skipped": {"strong": s_skipped, "external": e_skipped}, "tasks_refused_by_anthem": refused,
         "rule": "the C03 and C02 tasks, each under ALL combinations of --no-simplify x --no-eq-break x --decomposition (and tau-star/mu for strong "
